@@ -1023,5 +1023,8 @@ func TestVerifC07Users(t *testing.T) {
 	logx.Disable()
 	kit.Run(t, "C07", famNodeTake, kit.N(1600, 30000), func(c *kit.Case) { runUsers(c, famNodeTake) })
 	kit.Run(t, "C07", famMemTake, kit.N(3000, 60000), func(c *kit.Case) { runUsers(c, famMemTake) })
+	kit.Run(t, "C07", famMemShapes, kit.N(600, 12000), func(c *kit.Case) { runBurst(c, famMemShapes) })
+	kit.Run(t, "C07", famNodeShapes, kit.N(600, 12000), func(c *kit.Case) { runBurst(c, famNodeShapes) })
+	kit.Run(t, "C07", famNodeReuse, kit.N(200, 4000), func(c *kit.Case) { runBurst(c, famNodeReuse) })
 	kit.End()
 }
